@@ -21,7 +21,7 @@ Print Assumptions C05_stores_refine_ref.
 
 (* specification: predicates leave the store as it was, actions' writes are discarded,
    state blocks' writes persist *)
-Theorem C05_ref_predicates_restore : forall c ev n H R inv nid e sc g m v g' sc' m',
+Theorem C05_ref_predicates_restore : forall (c : rdata) ev n H R inv nid e sc g m v g' sc' m',
   (reval_body c ev n H R inv (EAnd nid e) sc g m = ROk v g' sc' m' -> g' = g) /\
   (reval_body c ev n H R inv (ENot nid e) sc g m = ROk v g' sc' m' -> g' = g).
 Proof.
@@ -29,21 +29,21 @@ Proof.
 Qed.
 Print Assumptions C05_ref_predicates_restore.
 
-Theorem C05_ref_state_block_persists : forall c ev n H R inv nid id sc g m,
-  let x := block_ctx_ref c id [] (pos_of (cData c) (g_off g)) sc g m in
-  forall r err st' gs', ce_state (cE c) id x = CbRet r err st' gs' ->
+Theorem C05_ref_state_block_persists : forall (c : rdata) ev n H R inv nid id sc g m,
+  let x := block_ctx_ref c id [] (pos_of (rData c) (g_off g)) sc g m in
+  forall r err st' gs', ce_state (rE c) id x = CbRet r err st' gs' ->
   exists m2, reval_body c ev n H R inv (EStC nid id) sc g m = ROk VNil (mkSig (g_off g) st') sc m2.
 Proof. exact stc_keeps_state. Qed.
 Print Assumptions C05_ref_state_block_persists.
 
-Theorem C05_ref_action_writes_discarded : forall c ev n H R inv nid id e sc g m g1 sc1 m1 v0,
+Theorem C05_ref_action_writes_discarded : forall (c : rdata) ev n H R inv nid id e sc g m g1 sc1 m1 v0,
   ev H R inv e sc g m = ROk v0 g1 sc1 m1 ->
-  let x := block_ctx_ref c id (slice c (g_off g) (g_off g1)) (pos_of (cData c) (g_off g)) sc1 g1 m1 in
-  match ce_act (cE c) id x with
+  let x := block_ctx_ref c id (slice c (g_off g) (g_off g1)) (pos_of (rData c) (g_off g)) sc1 g1 m1 in
+  match ce_act (rE c) id x with
   | CbRet r err st' gs' =>
       exists m2, reval_body c ev n H R inv (EAct nid id e) sc g m = ROk r g1 sc1 m2 /\ u_gs m2 = gs'
   | CbPanic pv st' gs' =>
-      exists m2, reval_body c ev n H R inv (EAct nid id e) sc g m = RPanic pv m2 (pos_of (cData c) (g_off g1)) R
+      exists m2, reval_body c ev n H R inv (EAct nid id e) sc g m = RPanic pv m2 (pos_of (rData c) (g_off g1)) R
   end.
 Proof. exact act_context. Qed.
 Print Assumptions C05_ref_action_writes_discarded.
